@@ -387,6 +387,11 @@ class Int(Field):
     def _unpack_fixed_size(self, pkt, raw, offset=0, **k):
         next_offset = offset + self.byte_count
         raw_data = raw[offset:next_offset]
+        if len(raw_data) != self.byte_count:
+            raise Exception(
+                "Unpacked %i bytes but expected %i" %
+                (len(raw_data), self.byte_count)
+            )
 
         try:
             num = int.from_bytes(
